@@ -98,8 +98,9 @@ def install_contracts(I: Interp, heap: ExprHeap):
 # --------------------------------------------------------------------------- util.factor contract
 def c_factor(I, args, kwargs, f):
     """Contract of util.factor (proved against the loop in the C16 check):
-    value == 0 or NaN -> {} ; otherwise a dict D with 1 in D, D[1] == value and, for every key k,
-    k != 0 and k * D[k] == value; for value > 0 also value in D with D[value] == 1."""
+    value == 0 or NaN -> {} ; value < 0 -> {1: value};  otherwise a dict D whose keys are exactly
+    1, value, and the pairs i, value/i for integers 2 <= i <= sqrt(value) with value/i an integer,
+    and D[k] * k == value for every key k."""
     from .values import SymDict, DictObj
 
     (value,) = args
@@ -120,17 +121,36 @@ def c_factor(I, args, kwargs, f):
     I.ps.assume(member(z3.RealVal(1)))
     I.ps.assume(z3.Implies(v > 0, member(v)))
 
+    def facts(kz):
+        """What membership of k means (instantiated per queried term)."""
+        fk = ("factor.facts", n, kz.sexpr())
+        if fk in I.ps.memo:
+            return
+        I.ps.memo[fk] = True
+        i = I.ps.fresh("div", "Real")
+        I.ps.assume(
+            z3.Implies(
+                member(kz),
+                z3.Or(
+                    kz == 1,
+                    z3.And(v > 0, kz == v),
+                    z3.And(v > 0, z3.IsInt(i), i >= 2, i * i <= v + 2 * i + 1, z3.IsInt(v / i), z3.Or(kz == i, kz == v / i)),
+                ),
+            )
+        )
+
     def mem(I, k):
         if not isinstance(k, (Num, int, float)) or isinstance(k, bool):
             return False
-        kz = zreal(k)
+        kz = z3.simplify(zreal(k))
+        facts(kz)
         return member(kz)
 
     def get(I, k):
         kz = z3.simplify(zreal(k))
         gk = ("factor.get", n, kz.sexpr())
         if gk not in I.ps.memo:
-            I.ps.assume(z3.Implies(member(kz), kz != 0))
+            facts(kz)
             I.ps.memo[gk] = Num(v / kz, (I.ps.fresh("ff", "Bool"), False))
         return I.ps.memo[gk]
 
@@ -168,8 +188,7 @@ def _factor_comprehension(I, d, e, g, env):
                 c = z3.And(c, z3.BoolVal(r))
             else:
                 c = z3.And(c, r)
-        kz = zreal(x)
-        return z3.And(c, kz != 0)
+        return c
 
     # relate emptiness to the keys known to be members
     one = Num(z3.RealVal(1), (False, False))
@@ -286,7 +305,7 @@ class RuleRun:
             post_root = heap.c_get_root(I, [result], {}, None)
             pre_root = heap.root if heap.root is not None else heap.declare_root(I, heap.top)
             clone_based = post_root.mirror is not None and _orig(post_root) is pre_root
-            if post_root is not pre_root and not clone_based and heap.gap is not None:
+            if post_root is not pre_root and not clone_based and heap.open_gaps():
                 rep.obligations.append(
                     Obligation("C07", "structure/context-kept", Verdict("refuted"), "result tree no longer hangs in its context")
                 )
@@ -308,8 +327,8 @@ class RuleRun:
         rep.obligations.append(
             Obligation("C09", "closure/constant-payload", Verdict("proved" if not payload else "refuted"), "; ".join(payload[:3]))
         )
-        if heap.gap is not None:
-            low = heap.gap.lower
+        for gp in heap.open_gaps():
+            low = gp.lower
             if "parent" in low.cur and low.cur["parent"] is not low.init.get("parent", object()):
                 problems.append(f"{low} was re-parented although its (unread) parent still points to it")
         rep.obligations.append(
@@ -674,7 +693,8 @@ def hasvar_axioms(I, heap: ExprHeap, v):
     for o in list(heap.nodes):
         if o.mirror is not None or not o.lazy:
             continue
-        if not any(f in o.init for f in ("left", "right", "identifier")) and not (o.kinds <= frozenset(LEAF)):
+        gapped = heap.is_gapped(o)
+        if not any(f in o.init for f in ("left", "right", "identifier")) and not (o.kinds <= frozenset(LEAF)) and not gapped:
             continue
         out.append(o.ghost["hasvar"](v) == heap._hasvar(I, o, v, True, {}))
     return out
@@ -740,7 +760,7 @@ def witness_from_model(I, heap: ExprHeap, node: Obj, model, cfg) -> Dict[str, An
 
     def build(o):
         if isinstance(o, Gap):
-            return {"gap": True, "below": build(o.lower)}
+            return {"gap": True, "additive": bool(o.additive), "k": num(o.addk) if o.additive else None, "below": build(o.lower)}
         g = o.ghost
         kcode = num(g["k"])
         kinds = sorted(o.kinds)
@@ -760,7 +780,7 @@ def witness_from_model(I, heap: ExprHeap, node: Obj, model, cfg) -> Dict[str, An
             d["ident"] = num(g["ident"])
             d["sigma"] = num(SIGMA(g["ident"]))
             return d
-        if not materialised and not (g.get("gap") is not None and heap.gap is g.get("gap")):
+        if not materialised and not heap.is_gapped(o):
             d["opaque"] = True
             d["val"] = num(g["val0"])
             d["defined"] = boolean(g["def0"])
